@@ -77,6 +77,19 @@ func (r *Runner) replayLight(l *Line) lineResult {
 	}
 	res := lineResult{fails: w.fails, calls: w.mon.ncalls, insts: 1,
 		nontrivial: l.Step.A == "undoblock" || len(l.Step.D) > 0 || l.Step.K > 0}
+	// large cached proofs against the full prover, once per run (option lightbig=1)
+	if optVal(r.extra, "lightbig", "") == "1" {
+		lb := func() {
+			res.calls += lightBig(func(props []string, cat, what string) {
+				res.fails = append(res.fails, Fail{Props: props, Inst: "lightclient.big", Cat: cat, What: what, Step: len(l.Hist)})
+			})
+		}
+		if r.one {
+			lb()
+		} else {
+			lightBigOnce.Do(lb)
+		}
+	}
 	// the same undo with a very large block (the result of undoing a block
 	// does not depend on how many leaves the block added)
 	big := 0
